@@ -133,6 +133,15 @@ func c16Timeout(args []string, _ []byte) string {
 	}
 	h.Close() // must not panic (e.g. closing an already closed channel)
 	time.Sleep(20 * time.Millisecond)
+	// the request object stays usable after its connection is gone: the accessors return (a lock left held by the second
+	// completion of an already completed request would block them forever)
+	if err := within(5*time.Second, "IsDone/Err/Incoming on a completed request after its handler was closed", func() error {
+		_, _ = req.IsDone(), req.Err()
+		<-req.Incoming()
+		return nil
+	}); err != nil {
+		return "FAIL: " + err.Error()
+	}
 	return "OK"
 }
 
